@@ -29,8 +29,12 @@ Record cfg : Type := mkCfg {
 Definition poll_dirty (c : cfg) : bool := poll_create_wall c || poll_vote_wall c || poll_end_wall c.
 Definition clean (c : cfg) : bool := negb (poll_dirty c || custody_wall c || custody_unsorted c).
 
-(* the code as it is in the unchanged tree, and the code after the block-time / stable-marshal repair *)
+Definition wall_free (c : cfg) : bool := negb (poll_dirty c || custody_wall c).
+
+(* the tree before commit c7688a1 (all five sites live), the tree after it (only the custody
+   map<> encodings consult the environment), and a tree with stable-marshalled custody records *)
 Definition wall_cfg : cfg := mkCfg true true true true true.
+Definition marshal_cfg : cfg := mkCfg false false false false true.
 Definition fixed_cfg : cfg := mkCfg false false false false false.
 
 (* ---------------------------------------------------------------- state *)
